@@ -194,6 +194,9 @@ static void gen_case(vh_ctx *c, gcase *g, size_t pmax, size_t nymax, double kmax
       int shift = (ys == 5 || vh_coin(c, 0.3));
       for (j = 0; j < ny; j++) {
         ld m = 0, v = 0; double unit = vh_logunif(c, -1.0, 2.5), off = 100.0 * (double)(j + (shift ? 1 : 0));
+        /* a response of ordinary spread whose mean is small but not zero (2e-4..8e-4; third seeded wave, side PRNG stream): the column sum is
+           far outside the library's documented 1e-6 zero-snap, so the mean must be removed like any other */
+        { vh_ctx cc = *c; cc.s[3] ^= 0x6A09E667F3BCC909ULL + (uint64_t)j; (void)vh_u64(&cc); (void)vh_u64(&cc); if (ys != 5 && vh_coin(&cc, 0.1)) { off = (vh_coin(&cc, 0.5) ? 1 : -1) * vh_range(&cc, 2e-4, 8e-4); vh_obs("responses_with_a_small_nonzero_mean", 1); } }
         if (unit < 0.1) unit = 0.1;
         if (g->yorth) unit = j == g->yorth_col ? 400.0 : unit > 100.0 ? 100.0 : unit;
         for (i = 0; i < n; i++) m += LM(S, i, j);
